@@ -47,6 +47,18 @@ macro_rules! steps {
         });
     };
 }
+macro_rules! steps2 {
+    ($clone:ident, $drop:ident, $unw:expr, $k:ty, $mk:expr) => {
+        h!($clone, $unw, {
+            let (a, n) = $mk;
+            step_clone::<$k>(a, n)
+        });
+        h!($drop, $unw, {
+            let (a, n) = $mk;
+            step_drop::<$k>(a, n)
+        });
+    };
+}
 macro_rules! conv {
     ($name:ident, $unw:expr, $k:ty, $k2:ty, $mk:expr) => {
         h!($name, $unw, {
@@ -59,7 +71,8 @@ macro_rules! conv {
 // ---- sized, Drop-tracked payload: every kind
 steps!(q_clone_arc_dt, q_drop_arc_dt, q_cdd_arc_dt, 5, Arc<Dt>, mk_dt());
 steps!(q_clone_offset_dt, q_drop_offset_dt, q_cdd_offset_dt, 5, OffsetArc<Dt>, mk_dt());
-steps!(q_clone_union1_dt, q_drop_union1_dt, t_cdd_union1_dt, 5, U1<Dt>, mk_dt());
+// (clone then two releases is split by release order for the unions: one symbolic-order harness needs > 20 GB)
+steps2!(q_clone_union1_dt, q_drop_union1_dt, 5, U1<Dt>, mk_dt());
 h!(q_cdd_union1_dt_a, 5, {
     let (a, n) = mk_dt();
     step_cdd::<U1<Dt>>(a, n, true)
@@ -68,7 +81,7 @@ h!(r1_cdd_union1_dt_b, 5, {
     let (a, n) = mk_dt();
     step_cdd::<U1<Dt>>(a, n, false)
 });
-steps!(q_clone_union2_dt, q_drop_union2_dt, t_cdd_union2_dt, 5, U2<Dt>, mk_dt());
+steps2!(q_clone_union2_dt, q_drop_union2_dt, 5, U2<Dt>, mk_dt());
 h!(q_cdd_union2_dt_b, 5, {
     let (a, n) = mk_dt();
     step_cdd::<U2<Dt>>(a, n, false)
